@@ -287,17 +287,36 @@ _installed = []
 
 
 def install():
-    """Rebinds whatever global of s3_basic_facade holds the boto3 module (found by identity or by name)."""
+    """Rebinds, in every loaded module of the library, whatever global holds the boto3 module or one of its entry points
+    (`from boto3 import client` ...), found by identity; returns the names rebound."""
     import sys
     import playback.tape_cassettes.s3.s3_basic_facade as F
+    import playback.tape_cassettes.s3.s3_tape_cassette   # noqa: F401  (so that it is scanned too)
     if _installed:
         return _installed
     real = sys.modules.get('boto3')
-    names = [n for n, v in vars(F).items() if v is real and real is not None] or (['boto3'] if hasattr(F, 'boto3') else [])
-    for n in names:
-        setattr(F, n, FAKE)
-    _installed.extend(names)
-    return names
+    entry = {}
+    if real is not None:
+        for attr in ('client', 'resource', 'Session'):
+            if hasattr(real, attr):
+                entry[id(getattr(real, attr))] = getattr(FAKE, attr)
+    for mname, mod in list(sys.modules.items()):
+        if not mname.startswith('playback.') or mod is None:
+            continue
+        for n, v in list(vars(mod).items()):
+            if real is not None and v is real:
+                setattr(mod, n, FAKE)
+                _installed.append('%s.%s' % (mname, n))
+            elif id(v) in entry and callable(v):
+                setattr(mod, n, entry[id(v)])
+                _installed.append('%s.%s' % (mname, n))
+    if not _installed and hasattr(F, 'boto3'):
+        F.boto3 = FAKE
+        _installed.append('playback.tape_cassettes.s3.s3_basic_facade.boto3')
+    if not _installed:
+        from mc.core import HarnessError
+        raise HarnessError('no boto3 entry point found in the library modules: the S3 seam scan must be extended')
+    return _installed
 
 
 def new_store(clock=None):
